@@ -27,7 +27,9 @@ def _tainted_names(fn: FuncInfo) -> dict[str, str]:
     (one element of a list value)."""
     names: dict[str, str] = {}
     for p in fn.params():
-        if p.arg in ("values", "split_values"):
+        ann = norm(p.annotation) if p.annotation is not None else ""
+        if p.arg in ("values", "split_values") or ann.startswith("dict[") or ann.startswith("ty.Dict[") or ann.startswith("dict"):
+            # the mapping of all field values (recognised by its annotation, not only by its name)
             names[p.arg] = "values-dict"
         elif p.arg in ("value", "val"):
             names[p.arg] = "field-value"
@@ -94,6 +96,8 @@ def retokenise_rule(A: Analysis, col: Collector, rule: str):
     else:
         raise AnalysisError("C23: split_cmd no longer tokenises with shlex.split or a shlex.shlex lexer (anchor moved)")
     tainted = _tainted_names(fa)
+    if "values-dict" not in tainted.values():
+        raise AnalysisError("C23: the mapping of field values among the parameters of ShellTask._format_arg was not recognised (anchor moved)")
     # the variables that reach the sink
     sink_vars = set()
     for s in sinks:
